@@ -122,6 +122,8 @@ var Table = []TableEntry{
 var FindingWitnesses = []TableEntry{
 	{Name: "c01-auto-atomic-nonboundary", AST: ast.Seq(plus(short("W")), ast.Anchor(`\B`)), Input: "  a", Expect: "(0,1)",
 		Origin: "backtracking semantics: \\W+ gives one blank back, after which \\B holds between the two blanks"},
+	{Name: "c01-re2-ignorecase-notword", AST: short("W"), Base: ast.Opts{I: true}, RE2: true, Input: "k", Expect: "nomatch",
+		Origin: "k is an ASCII word character, so \\W cannot match it whatever the case rule; the engine folds the complement ranges and K (KELVIN SIGN) brings k in"},
 }
 
 // TableCase converts an entry to a replayable Case.
